@@ -15,6 +15,13 @@ opaque tokens `r<hex>`.
 * `REFALL x<pat> x<alphabet> <n>`        ↦ `N <count> x<key>…`    — the reference over the same keyUniverse, sorted
 * `CLOUDJSONL x<key> r…`                 ↦ `W:<codec> R:OK r…` | `W:<codec> R:ERR`
 * `GLOBREAD x<pat> x<key>=r,r,… …`       ↦ `OK r…` | `ERR <class>`             (`read_cloud_jsonl_glob`)
+* `CLOUDNF x<key> q<x>;<o>;<v>,<v>… …`   ↦ `W:<codec> R:OK q… …` | `W:<codec> R:ERR`   — float-bearing records
+                                           `{x: f64, o: Option<f64>, v: Vec<f32>}` given structurally: a float is
+                                           `f<hex of its JSON text>` | `nan` | `pinf` | `ninf`, `<o>` may be `-` (None);
+                                           evaluated with `floatExt` (a non-finite float is written `null`)
+* `CLOUDBIG x<key> <n> x<key2> <m> x<pat>` ↦ `W:<codec> R:OK <n> G:OK <count>` | … — a LARGE object of n records under
+                                           `key`, a small one of m records under `key2`, read back and read by glob;
+                                           the model only counts (the harness's oracle compares the contents)
 -/
 namespace IB.D19
 open IB.Wire IB.CloudGlob
@@ -161,9 +168,74 @@ def handleRead : List String → String
     | _, _ => "BAD-OP"
   | _ => "BAD-OP"
 
+/-! ### float-bearing records (`CLOUDNF`) -/
+
+def fval? (t : String) : Option FVal :=
+  if t = "nan" then some .nan else if t = "pinf" then some .pinf else if t = "ninf" then some .ninf else
+  match t.toList with
+  | 'f' :: h =>
+    match hexToBytes? h with
+    | some bs =>
+      let txt : Str := bs.map Char.ofNat
+      if hh : txt ≠ [] ∧ txt.all isNumChar = true then some (.fin ⟨txt, hh.1, hh.2⟩) else none
+    | none => none
+  | _ => none
+
+def fvalTok : FVal → String
+  | .fin t => "f" ++ stringToHex (String.ofList t.text)
+  | .nan => "nan" | .pinf => "pinf" | .ninf => "ninf"
+
+def frec? (t : String) : Option FRec :=
+  match t.toList with
+  | 'q' :: body =>
+    match (String.ofList body).splitOn ";" with
+    | [x, o, v] => do
+      let x ← fval? x
+      let o ← (if o = "-" then some none else (fval? o).map some)
+      let v ← (if v = "" then some [] else (v.splitOn ",").mapM fval?)
+      some ⟨x, o, v⟩
+    | _ => none
+  | _ => none
+
+def frecTok (r : FRec) : String :=
+  "q" ++ fvalTok r.x ++ ";" ++ (match r.o with | none => "-" | some f => fvalTok f) ++ ";" ++
+    String.intercalate "," (r.v.map fvalTok)
+
+def handleNf : List String → String
+  | k :: rs => match str? k, rs.mapM frec? with
+    | some k, some rs =>
+      let s := writeObj floatExt [] k rs
+      let r := match readObj floatExt s k with
+        | .ok out => String.intercalate " " ("R:OK" :: out.map frecTok)
+        | .error _ => "R:ERR"
+      "W:" ++ codecName (writerCodec k) ++ " " ++ r
+    | _, _ => "BAD-OP"
+  | _ => "BAD-OP"
+
+/-! ### large objects (`CLOUDBIG`): the model counts -/
+
+def tokA : RecTok := ⟨['0', 'a'], by decide⟩
+def tokB : RecTok := ⟨['0', 'b'], by decide⟩
+
+def handleBig : List String → String
+  | [k, n, k2, m, p] => match str? k, parseNat? n, str? k2, parseNat? m, str? p with
+    | some k, some n, some k2, some m, some p =>
+      if n > 100000 ∨ m > 100000 then "BAD-OP" else
+      let s := writeAll wireExt [] [(k, List.replicate n tokA), (k2, List.replicate m tokB)]
+      let r := match readObj wireExt s k with
+        | .ok out => "R:OK " ++ toString out.length
+        | .error _ => "R:ERR"
+      let g := match readGlob wireExt s p with
+        | .ok out => "G:OK " ++ toString out.length
+        | .error e => "G:ERR " ++ errName e
+      "W:" ++ codecName (writerCodec k) ++ " " ++ r ++ " " ++ g
+    | _, _, _, _, _ => "BAD-OP"
+  | _ => "BAD-OP"
+
 def handlers : List (String × (List String → String)) :=
   [("GLOB2RE", handleGlob2Re), ("GLOBPREFIX", handlePrefix), ("GLOBMATCH", handleMatch false),
    ("GLOBREQ", handleMatch true), ("GLOBALL", handleAll), ("REFMATCH", handleRefMatch),
-   ("REFALL", handleRefAll), ("CLOUDJSONL", handleJsonl), ("GLOBREAD", handleRead)]
+   ("REFALL", handleRefAll), ("CLOUDJSONL", handleJsonl), ("GLOBREAD", handleRead),
+   ("CLOUDNF", handleNf), ("CLOUDBIG", handleBig)]
 
 end IB.D19
